@@ -21,6 +21,41 @@ def run_ops(cls: str, params: dict, ops: list[tuple], inst: str = "a", callbacks
     return r
 
 
+class AdwinBudget:
+    """A-priori bound on the rounding error of ADWIN's running `total` (forward error analysis of what the algorithm does, whatever the association inside it):
+    every value is added once (error <= half an ulp of the sum at that moment) and leaves inside a bucket whose own total was formed by at most log2(size)+1
+    additions; the subtraction rounds once more.  The error made while LARGE values were in the window stays when they have left - and nothing more than that:
+    after a drop of the level by many orders of magnitude the total is known to about ulp(old level) * (number of operations), not to 1e-9 of the old level."""
+    U = 1.1102230246251565e-16
+
+    def __init__(self):
+        self.budget = 0.0
+        self.budget_var = 0.0       # the same for the variance: sums of squares of the size sum(x^2) over the window are added and removed
+        self.hist: list = []
+        self.abs_sum = 0.0          # sum of |x| over the current window
+        self.sq_sum = 0.0           # sum of x^2 over the current window
+
+    def step(self, x: float, width_after: int) -> float:
+        import math
+        x = abs(float(x))
+        self.hist.append(x)
+        self.abs_sum += x
+        self.sq_sum += x * x
+        self.budget += self.U * self.abs_sum
+        self.budget_var += 8 * self.U * self.sq_sum
+        w_before = len(self.hist) if not hasattr(self, "w") else self.w + 1
+        dropped = max(0, w_before - int(width_after))
+        if dropped:
+            start = len(self.hist) - w_before
+            gone = math.fsum(self.hist[start: start + dropped])
+            self.budget += self.U * (math.log2(dropped + 1) + 2) * gone + self.U * self.abs_sum * (math.log2(dropped + 1) + 1)
+            self.budget_var += 16 * self.U * self.sq_sum * (math.log2(dropped + 1) + 2)
+            self.abs_sum = math.fsum(self.hist[len(self.hist) - int(width_after):]) if width_after > 0 else 0.0
+            self.sq_sum = math.fsum(v * v for v in self.hist[len(self.hist) - int(width_after):]) if width_after > 0 else 0.0
+        self.w = int(width_after)
+        return 2.0 * self.budget
+
+
 LINEAR = ("CUSUM", "PageHinkley", "GeometricMovingAverage")
 
 
@@ -93,10 +128,29 @@ def compare_batch(out: Outcome, runners: list[dets.Runner], rtol: float = 1e-9, 
         # ADWIN's variance (token 5) is a sum of SQUARED deviations kept by updates and downdates: after a cut what is left of it is the rounding residue of
         # numbers of size max|x|^2 (and of max|x| for the total, token 4), and any re-association of the same formula changes that residue
         floors = None
-        if r.cls == "ADWIN":
-            m = max([0.0] + vals)
-            floors = {4: max(floor, m), 5: max(floor * floor, m * m)}
+        ab = AdwinBudget() if r.cls == "ADWIN" else None
+        if r.cls == "BOCD":
+            # predicted mean (token 3) at the scale of the data, predicted variance (token 4) at the scale of the configured variances: a problem stated in
+            # nanoseconds-as-seconds has both far below 1
+            fp = dets.full_params("BOCD", r.params)
+            vals = [abs(h2f(l.split(" ")[2])) for l in r.lines if l[:2] in ("u ", "uq") and len(l.split(" ")) > 2]
+            floors = {3: max([abs(float(fp["prior_mean"])), float(fp["prior_var"]) ** 0.5, 1e-300] + vals), 4: max(float(fp["prior_var"]) + float(fp["data_var"]), 1e-300)}
         for k, (impl, modl) in enumerate(zip(r.obs, res[a:b])):
+            if ab is not None and k >= 1:
+                ln = r.lines[k].split(" ")
+                if ln[0] == "r":
+                    ab = AdwinBudget()
+                elif ln[0] in ("u", "uq") and impl is not None and len(impl) > 5 and impl[3].lstrip("-").isdigit():
+                    # total (token 4) and variance (token 5) are compared relative to what the window holds NOW, never finer than the rounding error the
+                    # algorithm may have accumulated (see AdwinBudget); the variance as the square of that scale
+                    tb = ab.step(h2f(ln[2]), int(impl[3]))
+                    wmax = max(ab.hist[len(ab.hist) - ab.w:], default=0.0) if ab.w > 0 else 0.0
+                    ft = max(wmax, 4.0 * tb / rtol)
+                    floors = {4: ft, 5: max(wmax * wmax, 8.0 * ab.budget_var / rtol, 1e-300)}
+                elif impl is None:
+                    ab = None       # an unobserved update: the width is unknown, fall back to the scale of the whole stream
+                    m = max([0.0] + vals)
+                    floors = {4: max(floor, m), 5: max(floor * floor, m * m)}
             if impl is None:          # an update after which nothing was read (see Runner.update(observe=False))
                 ok_steps += 1
                 continue
